@@ -688,6 +688,11 @@ Section Proofs.
       rewrite Es in G. apply lift3 in G.
       + destruct (may_add key keqb valid (lst s) x); rewrite Esp in G; exact G.
       + intros n E. subst. eapply insert_no_new; eauto.
+    - (* OInsertBadPos *)
+      unfold insert_bad_pos, validate_item in Es. unfold may_add in Esp.
+      destruct (valid x); [|inversion Es; inversion Esp; subst; readonly].
+      rewrite (inv_mem s _ I) in Es.
+      destruct (has_key (key x) (lst s)); inversion Es; inversion Esp; subst; readonly.
     - (* OAppend *)
       pose proof (insert_good s (zlen (lst s)) x (fun l => x :: l) I (fun l => Permutation_refl _)) as G.
       rewrite Es in G. apply lift3 in G.
